@@ -69,6 +69,37 @@ func c06check1(p *AllProject, r *rbT, files []string, srcs [][]byte, oi int, src
 	}
 	verifReach(tag)
 	verifObserve(tag, o.name+" at "+strconv.Itoa(o.loc.StartLine)+":"+strconv.Itoa(col)+" -> "+strconv.Itoa(len(got)))
+	// Inside the multi-file-definition class the server's notion of "the same variable" is one symbol per
+	// defining file. The result must still be consistent with that notion: every returned location
+	// resolves, via go-to-definition, to the declaration the query position resolves to.
+	if class == prefix+"-global-multi-file-def" && vs.ValidFlag && len(vs.StrVec) > 0 {
+		vq := vs
+		defQ := p.FindVarDefineInfo(files[o.file], &vq)
+		for _, g := range got {
+			for fi := range files {
+				if files[fi] != g.StrFile {
+					continue
+				}
+				l := vpLineStarts(srcs[fi])
+				if g.Loc.StartLine < 1 || g.Loc.StartLine > len(l) {
+					continue
+				}
+				goff := l[g.Loc.StartLine-1] + g.Loc.StartColumn
+				vg := GetVarStruct(srcs[fi], goff, uint32(g.Loc.StartLine-1), uint32(g.Loc.StartColumn))
+				if !vg.ValidFlag || len(vg.StrVec) == 0 {
+					continue
+				}
+				defG := p.FindVarDefineInfo(files[fi], &vg)
+				same := len(defG) == len(defQ)
+				for k := 0; same && k < len(defG); k++ {
+					same = defG[k].StrFile == defQ[k].StrFile && locEq(defG[k].Loc, defQ[k].Loc)
+				}
+				if !same {
+					verifViolation("", tag+": a returned location is bound (go-to-definition) to a different declaration than the query position")
+				}
+			}
+		}
+	}
 	// completeness
 	for j := range r.occs {
 		w := &r.occs[j]
@@ -179,6 +210,8 @@ func VerifRun_C11() {
 var c06multi = [][]string{
 	{"\x01 = 1\ng = \x01\n", "h = \x02\n", "k = \x03\n\x03 = 2\n", "m = \x04\n"},
 	{"local M = {}\nM.f = \x01\nreturn M\n", "local M = {}\n\x02 = M\nreturn M\n", "q = \x03\n", "r = \x04\n"},
+	// the same global declared at the same line and column of two files, used in the others
+	{"\x01 = 1\n", "h = \x02\ni = \x02\n", "\x03 = 2\n", "m = \x04\n"},
 }
 
 func c06multiRun(src common.CheckReferenceSrc, tag, prefix string) {
